@@ -11,7 +11,7 @@ vars == <<c>>
 
 G(nrd, chain) == [nrd |-> nrd, chain |-> chain]
 GA == G(TRUE, "auto")
-Case(ty, v, x, g, sh) == [ty |-> ty, ver |-> v, val |-> x, g |-> g, sh |-> sh, emit |-> TRUE, readable |-> TRUE]
+Case(ty, v, x, g, sh) == [ty |-> ty, ver |-> v, val |-> x, g |-> g, sh |-> sh, emit |-> TRUE, readable |-> TRUE, pert |-> TRUE, via |-> "trusted"]
 
 -----------------------------------------------------------------------------
 (* value generators; p = symbol prefix *)
@@ -97,7 +97,7 @@ PowCases == {Case("ProofOfWork", v, HdrV("h.", cl, "ts_any", eb, "main").pow, G(
 FlatCases == {Case(ty, v, FlatVal(FlatG(ty), "m.", cl), GA, [cls |-> cl]) : ty \in FlatTypes, cl \in {"any", "zero", "max"}, v \in Versions}
 AddrV(p, fam, icls) == IF fam = 4 THEN [fam |-> 4, ip |-> p \o "ip", port |-> NV(p \o "port", "any")]
                        ELSE [fam |-> 6, ip |-> p \o "ip", ipcls |-> icls, port |-> NV(p \o "port", "any")]
-AddrKinds == {<<4, "ip4">>, <<6, "ip6_native">>} \cup (IF StrictAddr THEN {<<6, "ip6_mapped">>} ELSE {})
+AddrKinds == {<<4, "ip4">>} \cup {<<6, cl>> : cl \in Ip6Classes}
 AddrCases == {Case("PeerAddr", v, AddrV("a.", k[1], k[2]), GA, [fam |-> k[1], cls |-> k[2]]) : k \in AddrKinds, v \in {1, 1000}}
 PeerAddrsCases == {Case("PeerAddrs", v, [peers |-> [j \in 1..n |-> AddrV("a" \o ToString(j) \o ".", IF j % 2 = 1 THEN 4 ELSE 6, "ip6_native")]],
                         GA, [n |-> n]) : n \in {0, 1, 2, 256}, v \in {1, 1000}}
@@ -120,23 +120,96 @@ SegV(lt, nh, nl, np) ==
      hpos |-> SubSeq(<<2, 6>>, 1, nh), hashes |-> [j \in 1..nh |-> "s.h" \o ToString(j)],
      lpos |-> SubSeq(<<0, 1, 3>>, 1, nl),
      leaves |-> [j \in 1..nl |-> IF lt = "kernel" THEN KernV("s.k" \o ToString(j) \o ".", SegKinds[j], "fee_any", "any")
+                                 ELSE IF lt = "rproof" THEN [proof |-> "s.rp" \o ToString(j)]
                                  ELSE [f |-> j % 2, c |-> "s.o" \o ToString(j) \o ".c"]],
      proof |-> [j \in 1..np |-> "s.p" \o ToString(j)]]
 SegCases == {Case(IF lt = "kernel" THEN "SegmentKernel" ELSE "SegmentOutId", v, SegV(lt, nh, nl, np), GA, [nh |-> nh, nl |-> nl, np |-> np]) :
                lt \in {"kernel", "outid"}, nh \in {0, 2}, nl \in {0, 1, 3}, np \in {0, 2}, v \in Versions}
             \cup {Case("SegmentProof", v, [proof |-> [j \in 1..np |-> "s.p" \o ToString(j)]], GA, [np |-> np]) : np \in {0, 1, 3}, v \in {1, 1000}}
 NposSet(nch) == LET nb == nch * ChunkBits IN {n \in {0, 1, 4095, 4096, nb - 4096, nb - 4095, nb - 1, nb, nb \div 2} : n >= 0 /\ n <= nb}
-BmV(blocks, np) == [id |-> [height |-> NV("s.height", "h7"), idx |-> NV("s.idx", "zero")], blocks |-> blocks,
-                    proof |-> [j \in 1..np |-> "s.p" \o ToString(j)]]
-BmCases == {Case("BitmapSegment", v, BmV(<<[nch |-> nch, npos |-> n, sym |-> "b1"]>>, np), GA, [nch |-> nch, npos |-> n]) :
+BmV(h, blocks, np) == [id |-> [height |-> h, idx |-> NV("s.idx", "zero")], blocks |-> blocks,
+                       proof |-> [j \in 1..np |-> "s.p" \o ToString(j)]]
+BmCases == {Case("BitmapSegment", v, BmV(7, <<[nch |-> nch, npos |-> n, sym |-> "b1"]>>, np), GA, [nch |-> nch, npos |-> n]) :
                nch \in {1, 8, 64}, n \in NposSet(1) \cup NposSet(8) \cup NposSet(64), np \in {0, 2}, v \in {1, 1000}}
 BmCases2 == {x \in BmCases : x.sh.npos \in NposSet(x.sh.nch)}
-            \cup {Case("BitmapSegment", 1000, BmV(<<[nch |-> 64, npos |-> a, sym |-> "b1"], [nch |-> q[1], npos |-> q[2], sym |-> "b2"]>>, 1), GA,
+            \cup {Case("BitmapSegment", 1000, BmV(7, <<[nch |-> 64, npos |-> a, sym |-> "b1"], [nch |-> q[1], npos |-> q[2], sym |-> "b2"]>>, 1), GA,
                        [nch |-> 64 + q[1], npos |-> a + q[2]]) : q \in {<<1, 3>>, <<1, 512>>, <<8, 3>>, <<8, 4096>>}, a \in {5, 65536 - 7, 30000}}
+(* every segment height: a segment of height h holds up to 2^h chunks, written as ceil(chunks / 64) blocks; each *)
+(* block in the encoding its population selects (BlockMode): "idx" few bits set, "neg" few bits clear, "raw".    *)
+BmEncs == <<"idx", "neg", "raw">>
+BmEncNpos(enc, nch) == LET nb == nch * ChunkBits IN CASE enc = "idx" -> 5 [] enc = "neg" -> nb - 5 [] enc = "raw" -> nb \div 2
+BmBlocks(n, EncOf(_)) ==
+    LET nfull == n \div BlockChunks   rem == n % BlockChunks   nb == nfull + (IF rem > 0 THEN 1 ELSE 0)
+    IN [j \in 1..nb |-> LET nch == IF j <= nfull THEN BlockChunks ELSE rem
+                        IN [nch |-> nch, npos |-> BmEncNpos(EncOf(j), nch), sym |-> "b" \o ToString(j)]]
+BmModes(bl) == [j \in 1..Len(bl) |-> BlockMode(bl[j])]
+Min2(a, b) == IF a < b THEN a ELSE b
+\* (a) heights 0..14 x encoding x version, at most two blocks (= the full segment up to height 7); height 14 is refused
+BmHeightCases ==
+    {[Case("BitmapSegment", v, BmV(h, BmBlocks(Min2(2^h, 128), LAMBDA j : enc), 1), GA,
+           [h |-> h, enc |-> enc, chunks |-> Min2(2^h, 128), modes |-> BmModes(BmBlocks(Min2(2^h, 128), LAMBDA j : enc))])
+      EXCEPT !.readable = (h <= BmMaxHeight)] : h \in 0..14, enc \in {"idx", "neg", "raw"}, v \in Versions}
+\* (b) one chunk more than the height holds: writable, refused by the reader
+BmOverCases ==
+    {[Case("BitmapSegment", 1000, BmV(h, BmBlocks(2^h + 1, LAMBDA j : "idx"), 1), GA, [h |-> h, enc |-> "idx", chunks |-> 2^h + 1, over |-> TRUE])
+      EXCEPT !.readable = FALSE] : h \in 0..(IF Tier = "quick" THEN 9 ELSE 13)}
+\* (c) the full segment of the larger heights, encodings mixed over the blocks (no perturbations: size)
+BmFullCases ==
+    {[Case("BitmapSegment", 1000, BmV(h, BmBlocks(2^h, LAMBDA j : BmEncs[(j % 3) + 1]), 2), GA, [h |-> h, enc |-> "mixed", chunks |-> 2^h, full |-> TRUE])
+      EXCEPT !.pert = FALSE] : h \in (IF Tier = "quick" THEN {8, 9, 13} ELSE 8..13)}
+BmAll == BmCases2 \cup BmHeightCases \cup BmOverCases \cup BmFullCases
 
-Cases == KFCases \cup KernCases \cup IOCases \cup BodyCases \cup TxCases \cup BlockCases \cup CBlockCases
+(* PIBD responses and the remaining stored / relayed records *)
+SegShapes == {[nh |-> nh, nl |-> nl, np |-> np] : nh \in {0, 2}, nl \in {0, 1, 3}, np \in {0, 2}}
+SyncCases ==
+    {Case("SegmentRangeProof", v, SegV("rproof", sh.nh, sh.nl, sh.np), GA, sh) : sh \in SegShapes, v \in Versions}
+    \cup {Case("SegmentResponseKernel", v, [block_hash |-> "r.block_hash", segment |-> SegV("kernel", sh.nh, sh.nl, sh.np)], GA, sh) :
+             sh \in {x \in SegShapes : x.nl > 0 \/ x.nh = 0}, v \in Versions}
+    \cup {Case("SegmentResponseRangeProof", v, [block_hash |-> "r.block_hash", segment |-> SegV("rproof", sh.nh, sh.nl, sh.np)], GA, sh) :
+             sh \in {x \in SegShapes : x.nl > 0 \/ x.nh = 0}, v \in {1, 1000}}
+    \cup {Case("OutputSegmentResponse", v, [response |-> [block_hash |-> "r.block_hash", segment |-> SegV("outid", sh.nh, sh.nl, sh.np)],
+                                            output_bitmap_root |-> "r.bitmap_root"], GA, sh) :
+             sh \in {x \in SegShapes : x.nl > 0 \/ x.nh = 0}, v \in {1, 1000}}
+    \cup {Case("OutputBitmapSegmentResponse", v, [block_hash |-> "r.block_hash", output_root |-> "r.output_root",
+                                                  segment |-> BmV(h, BmBlocks(Min2(2^h, 65), LAMBDA j : enc), np)], GA,
+                [h |-> h, enc |-> enc, np |-> np]) : h \in {0, 3, 7}, enc \in {"idx", "raw"}, np \in {0, 2}, v \in {1, 1000}}
+    \cup {Case("PeerError", v, [code |-> NV("e.code", cl), msglen |-> ml, msg |-> "e.msg"], GA, [cls |-> cl, msglen |-> ml]) :
+             cl \in {"any", "zero", "max"}, ml \in {0, 1, 40}, v \in {1, 1000}}
+    \cup {Case("BlockSums", v, [utxo_sum |-> "bs.utxo", kernel_sum |-> "bs.kernel"], GA, [n |-> 0]) : v \in Versions}
+    \cup {Case("MerkleProof", v, [mmr_size |-> NV("mp.size", cl), path |-> [j \in 1..n |-> "mp.h" \o ToString(j)]], GA, [n |-> n, cls |-> cl]) :
+             cl \in {"any", "max"}, n \in {0, 1, 7, 128}, v \in {1, 1000}}
+
+(* the network readers: admissible (mined) header, same shapes as the trusted Block / CompactBlock cases *)
+UHdrV(p) ==
+    [version |-> NV(p \o "version", "one"), height |-> NV(p \o "height", "zero"), ts |-> NV(p \o "ts", "ts_zero"),
+     prev_hash |-> p \o "prev_hash", prev_root |-> p \o "prev_root", output_root |-> p \o "output_root",
+     range_proof_root |-> p \o "range_proof_root", kernel_root |-> p \o "kernel_root",
+     total_kernel_offset |-> p \o "total_kernel_offset", oms |-> NV(p \o "oms", "zero"), kms |-> NV(p \o "kms", "zero"),
+     pow |-> [td |-> NV(p \o "td", "any"), ss |-> NV(p \o "ss", "any"), nonce |-> NV(p \o "nonce", "mined"),
+              proof |-> [eb |-> 10, ps |-> ProofSize("auto"), nonces |-> NV(p \o "nonces", "mined")]]]
+Untrusted(x) == [x EXCEPT !.via = "untrusted"]
+UCases ==
+    {Untrusted(Case("BlockHeader", v, UHdrV("h."), GA, [eb |-> 10, chain |-> "auto", cls |-> "mined", ts |-> "ts_zero"])) : v \in {1, 1000}}
+    \cup {Untrusted(BodyCaseOf("Block", s, v, KindsBlock, TRUE, LAMBDA b : [header |-> UHdrV("h."), body |-> b])) :
+             s \in {s \in Shapes : (Tier = "quick" => s.ni \in {0, 2}) /\ (s.var = "FC" \/ s.ni = 0 \/ Tier # "quick")}, v \in Versions}
+    \cup {Untrusted(Case("CompactBlock", v,
+                     [header |-> UHdrV("h."), nonce |-> NV("cb.nonce", "any"),
+                      out_full |-> [j \in 1..no |-> OutV("o" \o ToString(j) \o ".", 1) @@ [r |-> j]],
+                      kern_full |-> [j \in 1..nkf |-> KernItem("k" \o ToString(j) \o ".", "Coinbase", j)],
+                      kern_ids |-> [j \in 1..nid |-> [id |-> "kid" \o ToString(j), r |-> j]]],
+                     GA, [no |-> no, nkf |-> nkf, nid |-> nid])) : no \in 0..2, nkf \in 0..2, nid \in {0, 1, 3}, v \in {1, 1000}}
+\* a block whose input spends an output of the same block: the trusted reader takes it, the network reader's validate_read refuses it
+CutBody(var) == [inputs |-> IF var = "FC" THEN [var |-> "FC", items |-> <<[f |-> 0, c |-> "o1.c", ri |-> 1, rc |-> 1]>>]
+                                         ELSE [var |-> "CO", items |-> <<[c |-> "o1.c", rc |-> 1]>>],
+                 outputs |-> <<OutV("o1.", 0) @@ [r |-> 1]>>,
+                 kernels |-> <<KernItem("k1.", "Plain", 1)>>]
+CutCases == {[Case("Block", v, [header |-> UHdrV("h."), body |-> CutBody(var)], GA, [var |-> var, cut_through |-> TRUE])
+              EXCEPT !.via = via, !.readable = (via = "trusted")] :
+                var \in {"FC", "CO"}, v \in Versions, via \in {"trusted", "untrusted"}}
+
+Cases == UCases \cup CutCases \cup SyncCases \cup KFCases \cup KernCases \cup IOCases \cup BodyCases \cup TxCases \cup BlockCases \cup CBlockCases
          \cup ProofCases \cup HdrCases2 \cup PowCases \cup FlatCases \cup AddrCases \cup PeerAddrsCases \cup LocatorCases
-         \cup HandCases \cup ShakeCases \cup HeadersCases \cup SegCases \cup BmCases2
+         \cup HandCases \cup ShakeCases \cup HeadersCases \cup SegCases \cup BmAll
 
 Init == c \in Cases
 Next == UNCHANGED c
@@ -144,7 +217,8 @@ Spec == Init /\ [][Next]_vars
 
 -----------------------------------------------------------------------------
 L(x)  == Lay(x.ty, x.val, x.ver, x.g)
-D(x)  == Dec(x.ty, L(x), x.ver, x.g)
+DV(x, lay, g) == DecVia(x.via, x.ty, lay, x.ver, g)
+D(x)  == DV(x, L(x), x.g)
 W(x)  == Writable(x.ty, x.val, x.ver)
 Checkable(x) == W(x) /\ HasDecoder(x.ty)
 
@@ -165,8 +239,8 @@ HashStable == (c.ty \in HashTypes) =>
 \* anti-vacuity for HashStable: the Transaction hash (not an identity hash under the property) is NOT stable:
 \* the full layout of the body in hash mode differs once v3 dropped the input features.
 \* every canonical-rule perturbation is refused
-PertsRefused == (Checkable(c) /\ c.readable) => \A p \in Perts(L(c)) : ~Dec(c.ty, p.lay, c.ver, c.g).ok
-NrdOffRefused == (Checkable(c) /\ HasNRD(L(c))) => ~Dec(c.ty, L(c), c.ver, [c.g EXCEPT !.nrd = FALSE]).ok
+PertsRefused == (Checkable(c) /\ c.readable /\ c.pert) => \A p \in Perts(L(c)) : ~DV(c, p.lay, c.g).ok
+NrdOffRefused == (Checkable(c) /\ HasNRD(L(c))) => ~DV(c, L(c), [c.g EXCEPT !.nrd = FALSE]).ok
 \* CommitOnly inputs cannot be written below v3 (UnsupportedProtocolVersion), everything else can
 WritableOK == W(c) <=> ~(c.ty \in {"TransactionBody", "Transaction", "Block"}
                          /\ (IF c.ty = "TransactionBody" THEN c.val ELSE c.val.body).inputs.var = "CO"
@@ -194,9 +268,9 @@ Keys(x) ==
         [inputs |-> <<>>, outputs |-> [j \in 1..Len(x.val.out_full) |-> OutIdLay(x.val.out_full[j])],
          kernels |-> [j \in 1..Len(x.val.kern_full) |-> KernHLay(x.val.kern_full[j])]]
     ELSE [inputs |-> <<>>, outputs |-> <<>>, kernels |-> <<>>]
-PertSeq(x) == IF Checkable(x) /\ x.readable THEN SetToSeq({[cls |-> p.cls, lay |-> p.lay] : p \in Perts(L(x))}) ELSE <<>>
+PertSeq(x) == IF Checkable(x) /\ x.readable /\ x.pert THEN SetToSeq({[cls |-> p.cls, lay |-> p.lay] : p \in Perts(L(x))}) ELSE <<>>
 EmitRec(x) == [ty |-> x.ty, ver |-> x.ver, g |-> x.g, sh |-> x.sh, val |-> x.val, writable |-> W(x),
-               readable |-> x.readable, decodable |-> HasDecoder(x.ty),
+               readable |-> x.readable, decodable |-> HasDecoder(x.ty), readers |-> Readers, big |-> ~x.pert, via |-> x.via,
                lay |-> IF W(x) THEN L(x) ELSE <<>>,
                hlay |-> IF x.ty \in HashTypes THEN HLay(x.ty, x.val) ELSE <<>>,
                nrdoff |-> Checkable(x) /\ HasNRD(L(x)), keys |-> Keys(x),
